@@ -52,7 +52,7 @@ class AbstractValueWithQuantityObject:
             assert unit is None, "If quantity is given, the unit must not!"
 
             if value is None:
-                value = self._GetDefaultValue(quantity.GetCategoryInfo())
+                value = self._GetDefaultValueForQuantity(quantity)
 
         else:
             if not isinstance(category, str):
@@ -82,6 +82,18 @@ class AbstractValueWithQuantityObject:
 
     def _GetDefaultValue(self, category_info: CategoryInfo, unit: Optional[str] = None) -> Any:
         raise NotImplementedError
+
+    def _GetDefaultValueForQuantity(self, quantity: Quantity) -> Any:
+        """
+        :returns:
+            The default value of the quantity's category expressed in the quantity's unit (the
+            default value is given in the default unit of the category, which may be another one).
+        """
+        category_info = quantity.GetCategoryInfo()
+        unit = quantity.GetUnit()
+        if category_info is None or unit == category_info.default_unit:
+            return self._GetDefaultValue(category_info)
+        return self._GetDefaultValue(category_info, unit)
 
     def _InternalCreateWithQuantity(
         self, quantity: Quantity, value: Any, unit_database: Optional[UnitDatabase] = None
